@@ -57,16 +57,31 @@ Lemma gov_submit_fail_unchanged p s from dep b1 b2 g :
   fst (gov_submit p s from dep b1 b2 g) <> ROk -> snd (gov_submit p s from dep b1 b2 g) = s.
 Proof. unfold gov_submit. repeat (tcase; try tdone). Qed.
 
+(* withdrawal from an account with a withdraw hook (vault) *)
+Lemma withdraw_hooked_fail_unchanged p s to from amt ok g :
+  fst (withdraw_hooked p s to from amt ok g) <> ROk -> snd (withdraw_hooked p s to from amt ok g) = s.
+Proof. unfold withdraw_hooked, qmove. repeat (tcase; try tdone). Qed.
+
+(* a withdrawal whose source is the caller itself is rejected and changes nothing, with or
+   without a withdraw hook on the account, whatever the hook says *)
+Lemma withdraw_self_noop_l p s a amt ok g :
+  (fst (withdraw_op p s a a amt g) <> ROk /\ snd (withdraw_op p s a a amt g) = s) /\
+  (fst (withdraw_hooked p s a a amt ok g) <> ROk /\ snd (withdraw_hooked p s a a amt ok g) = s).
+Proof.
+  unfold withdraw_op, withdraw_hooked. rewrite N.eqb_refl.
+  split; repeat (tcase; [cbn [fst snd]; split; [discriminate|reflexivity]|]);
+    cbn [fst snd]; split; first [discriminate | reflexivity].
+Qed.
+
 (* ledger-neutral transactions (governance vote, amend commission schedule, other apps):
    they never write to the ledger, whatever their result *)
 Lemma other_never_writes p s signer ok g : snd (exec_body p s signer (BOther ok) g) = s.
-Proof. cbn [exec_body]. repeat (tcase; try tdone). Qed.
+Proof. cbn [exec_body exec_leaf]. repeat (tcase; try tdone). Qed.
 
-(* all of them together: the handler part of any transaction *)
-Lemma tx_fail_leaves_post_auth_state_l p s signer b g :
-  fst (exec_body p s signer b g) <> ROk -> snd (exec_body p s signer b g) = s.
+Lemma leaf_fail_unchanged p s signer b g :
+  fst (exec_leaf p s signer b g) <> ROk -> snd (exec_leaf p s signer b g) = s.
 Proof.
-  destruct b; cbn [exec_body].
+  destruct b; cbn [exec_leaf].
   - apply transfer_fail_unchanged.
   - apply burn_fail_unchanged.
   - apply add_escrow_fail_unchanged.
@@ -75,6 +90,17 @@ Proof.
   - apply withdraw_fail_unchanged.
   - apply gov_submit_fail_unchanged.
   - intros _. apply (other_never_writes p s signer ok g).
+  - apply withdraw_hooked_fail_unchanged.
+  - reflexivity.
+Qed.
+
+(* all of them together: the handler part of any transaction, including a message executed by
+   a vault as a subcall *)
+Lemma tx_fail_leaves_post_auth_state_l p s signer b g :
+  fst (exec_body p s signer b g) <> ROk -> snd (exec_body p s signer b g) = s.
+Proof.
+  destruct b; try exact (leaf_fail_unchanged p s signer _ g).
+  cbn [exec_body]. tcase; [tdone|]. apply leaf_fail_unchanged.
 Qed.
 
 (* ---------- authentication ---------- *)
